@@ -114,7 +114,10 @@ Inductive payload :=
 | PUpdate (m : umsg)                  (* send/update, json_to_bin *)
 | PRefresh (afi safi res : N)         (* send/route-refresh with integer afi, safi (, res) *)
 | PBin (b : bytes)                    (* send/bin_update with valid hex text *)
-| PRib (wf : bool).                   (* adj-rib-in/out: "data" is a list of strings and afi_safi is ipv4 *)
+| PRib (wf : bool)                    (* adj-rib-in/out: "data" is a list of strings and afi_safi is ipv4 *)
+| PUpdateCap (m : umsg).              (* like PUpdate, but the extended-community text of the request is one
+                                         whose re-combination reads the peer's four_bytes_as capability first
+                                         (route-origin:<as>:<n>, route-target with an AS above 65535) *)
 
 Record request : Type := mkReq {
   q_route : route; q_meth : meth; q_creds : creds; q_payload : payload
@@ -193,30 +196,53 @@ Definition view_route_refresh (p : payload) (w : world) : world * resp :=
   | _ => (w, RFail)
   end.
 
+(** v1.py, extended-community re-combination: `if remote: four_bytes_as = remote['four_bytes_as'] else:
+    return {'status': False, ...}` - an empty remote capability dict is refused, a non-empty one without
+    the key is a KeyError (500) *)
+Definition cap_lookup (w : world) : option resp :=
+  match w_capr w with
+  | [] => Some RFail
+  | _ => if cap_has KFourBytesAs (w_capr w) then None else Some RErr
+  end.
+
+Definition send_update_core (m : umsg) (w : world) : world * resp :=
+  let m' := default_local_pref (ibgp w) m in
+  if sendable m' then
+    match w_proto w with
+    | None => (w, RErr)
+    | Some _ =>
+        match wire_of w m' with
+        | Some b => (do_event D (ESendUpdate true b) w, ROk)
+        | None => (do_event D (ESendUpdate false []) w, RFail)
+        end
+    end
+  else (w, RFail).
+
 Definition view_send_update (p : payload) (w : world) : world * resp :=
   match p with
-  | PUpdate m =>
-      let m' := default_local_pref (ibgp w) m in
-      if sendable m' then
-        match w_proto w with
-        | None => (w, RErr)
-        | Some _ =>
-            match wire_of w m' with
-            | Some b => (do_event D (ESendUpdate true b) w, ROk)
-            | None => (do_event D (ESendUpdate false []) w, RFail)
-            end
-        end
-      else (w, RFail)
+  | PUpdate m => send_update_core m w
+  | PUpdateCap m =>
+      match cap_lookup w with
+      | Some r => (w, r)
+      | None => send_update_core m w
+      end
   | _ => (w, RFail)
   end.
 
+Definition json_to_bin_core (m : umsg) (w : world) : world * resp :=
+  let m' := default_local_pref (ibgp w) m in
+  if sendable m' then
+    match wire_of w m' with Some _ => (w, ROk) | None => (w, RErr) end
+  else (w, RFail).
+
 Definition view_json_to_bin (p : payload) (w : world) : world * resp :=
   match p with
-  | PUpdate m =>
-      let m' := default_local_pref (ibgp w) m in
-      if sendable m' then
-        match wire_of w m' with Some _ => (w, ROk) | None => (w, RErr) end
-      else (w, RFail)
+  | PUpdate m => json_to_bin_core m w
+  | PUpdateCap m =>
+      match cap_lookup w with
+      | Some r => (w, r)
+      | None => json_to_bin_core m w
+      end
   | _ => (w, RFail)
   end.
 
